@@ -56,6 +56,14 @@ CONSTANTS Good,      \* indices of well-formed entries used before the fault
           Routes,    \* how the faulty template gets compiled: "string", "file", "lookup" (direct), or lazily
                      \* from a rendering, well-formed OUTER template: "include", "inherit", "namespace";
                      \* each with or without a module directory ("+mod" appended)
+          Opts,      \* Template / lookup options of the case that transform the text before it is lexed or change the
+                     \* layout of the generated module: "none", "pre-identity", "pre-delete" (a preprocessor deleting the
+                     \* 2 lines in front), "pre-insert" (one putting 2 lines in front), "pre-list" (both, in that order),
+                     \* "bytes-magic" (bytes input whose first line is the magic encoding comment: skipped as content but
+                     \* counted as a line), "bom", "strict_undefined", "enable_loop-false", "imports", "future_imports",
+                     \* "default_filters"
+          SourceIsLexedText,  \* TRUE (intended): the source carried by nodes and exceptions is the text the lexer lexes
+                              \* (after decoding and preprocessing); FALSE: the text before the preprocessors ran
           RichOverrides  \* TRUE (intended): RichTraceback takes source/lineno from a Compile/SyntaxException
                          \* whatever the traceback holds; FALSE: only when no frame belongs to a template
 
@@ -71,10 +79,16 @@ VARIABLES tpl,      \* the template: sequence of catalog indices
           lineno,   \* Lexer.lineno
           cb,       \* characters consumed on the current line (match_position - last newline - 1)
           report,   \* what the mechanism reports
-          route     \* compile route of the case
-vars == <<tpl, nlk, fpos, phase, k, lineno, cb, report, route>>
+          route,    \* compile route of the case
+          opt       \* option configuration of the case
+vars == <<tpl, nlk, fpos, phase, k, lineno, cb, report, route, opt>>
 
 NoReport == [line |-> 0, col |-> 0]
+\* lines standing in front of the catalog template in the text the lexer lexes / in the text before the preprocessors
+LexedHead(o) == CASE o \in {"pre-insert", "pre-list"} -> 2 [] o = "bytes-magic" -> 1 [] OTHER -> 0
+RawHead(o)   == CASE o \in {"pre-delete", "pre-list"} -> 2 [] o = "bytes-magic" -> 1 [] OTHER -> 0
+\* the source text carried by the exception begins with this many lines before the catalog template
+CarriedHead(o) == IF SourceIsLexedText THEN LexedHead(o) ELSE RawHead(o)
 
 (* ------------------------------ geometry ------------------------------ *)
 NLs(e)   == L_NLs(Cat, e)                  \* line terminators inside entry e
@@ -91,7 +105,7 @@ MayFollow(t, e) == Cat[e].ls => AtLineStart(t)
 Cols(c, f) == {c, c + f.ind}
 Declared(t, i) ==
   LET f  == Cat[t[i]].f
-      bl == LineOf(t, i)
+      bl == LineOf(t, i) + LexedHead(opt)      \* positions are positions in the text the lexer actually lexes
       c0 == (IF f.noff = 0 THEN ColOf(t, i) ELSE 1) + f.nc
   IN [line |-> bl + (IF f.cls = "py" \/ (f.cls = "rt" /\ f.exact) THEN f.foff ELSE f.noff),
       cols |-> Cols(c0, f),
@@ -122,21 +136,21 @@ Mech(ml, mc, f) ==
       col |-> nodecol]
 
 (* ------------------------------ actions ------------------------------- *)
-Init == /\ tpl = <<>> /\ nlk \in NLKinds /\ fpos = 0 /\ phase = "build"
-        /\ k = 1 /\ lineno = 1 /\ cb = 0 /\ report = NoReport /\ route \in Routes
+Init == /\ opt \in Opts /\ tpl = <<>> /\ nlk \in NLKinds /\ fpos = 0 /\ phase = "build"
+        /\ k = 1 /\ lineno = 1 + LexedHead(opt) /\ cb = 0 /\ report = NoReport /\ route \in Routes
 
 AddPre(e) == /\ phase = "build" /\ Len(tpl) < MaxPre /\ e \in Good /\ MayFollow(tpl, e)
              /\ tpl' = Append(tpl, e)
-             /\ UNCHANGED <<nlk, fpos, phase, k, lineno, cb, report, route>>
+             /\ UNCHANGED <<nlk, fpos, phase, k, lineno, cb, report, route, opt>>
 \* fault planting: class x position (the entry carries class and inner position)
 Plant(e) == /\ phase = "build" /\ e \in Faulty /\ MayFollow(tpl, e)
             /\ tpl' = Append(tpl, e) /\ fpos' = Len(tpl) + 1 /\ phase' = "tail"
-            /\ UNCHANGED <<nlk, k, lineno, cb, report, route>>
+            /\ UNCHANGED <<nlk, k, lineno, cb, report, route, opt>>
 AddTail(e) == /\ phase = "tail" /\ e \in Tails /\ MayFollow(tpl, e)
               /\ tpl' = Append(tpl, e) /\ phase' = "lex"
-              /\ UNCHANGED <<nlk, fpos, k, lineno, cb, report, route>>
+              /\ UNCHANGED <<nlk, fpos, k, lineno, cb, report, route, opt>>
 NoTail == /\ phase = "tail" /\ phase' = "lex"
-          /\ UNCHANGED <<tpl, nlk, fpos, k, lineno, cb, report, route>>
+          /\ UNCHANGED <<tpl, nlk, fpos, k, lineno, cb, report, route, opt>>
 \* Lexer.match_reg over one construct
 LexStep == /\ phase = "lex" /\ k <= Len(tpl)
            /\ LET e  == tpl[k]
@@ -146,9 +160,9 @@ LexStep == /\ phase = "lex" /\ k <= Len(tpl)
                  /\ cb' = (IF NLs(e) > 0 THEN LastW(e) ELSE cb + LastW(e))
                  /\ report' = (IF k = fpos THEN Mech(ml, mc, Cat[e].f) ELSE report)
            /\ k' = k + 1
-           /\ UNCHANGED <<tpl, nlk, fpos, phase, route>>
+           /\ UNCHANGED <<tpl, nlk, fpos, phase, route, opt>>
 LexEnd == /\ phase = "lex" /\ k > Len(tpl) /\ phase' = "done"
-          /\ UNCHANGED <<tpl, nlk, fpos, k, lineno, cb, report, route>>
+          /\ UNCHANGED <<tpl, nlk, fpos, k, lineno, cb, report, route, opt>>
 (* RichTraceback (mako/exceptions.py): which template and line it displays for the compile error.  *)
 (* On a lazy route the traceback holds a frame of the OUTER template (at its include / inherit /    *)
 (* namespace tag); RichTraceback._init would pick that frame's template and line.                   *)
@@ -157,12 +171,12 @@ RichShows == IF RichOverrides \/ ~Lazy(route) THEN [who |-> "faulty", line |-> r
              ELSE [who |-> "outer", line |-> 0]
 SetToSeq(S) == LET RECURSIVE h(_) h(s) == IF s = {} THEN <<>> ELSE LET x == CHOOSE y \in s : \A z \in s : y <= z IN <<x>> \o h(s \ {x}) IN h(S)
 Case == LET d == Declared(tpl, fpos) IN
-        [seq |-> tpl, nl |-> nlk, route |-> route, fpos |-> fpos, line |-> d.line, cols |-> SetToSeq(d.cols),
-         bline |-> LineOf(tpl, fpos), bcol |-> ColOf(tpl, fpos), frames |-> d.frames,
-         fline |-> LineOf(tpl, fpos) + Cat[tpl[fpos]].f.foff,     \* physical line of the planted token
+        [seq |-> tpl, nl |-> nlk, route |-> route, opt |-> opt, fpos |-> fpos, line |-> d.line, cols |-> SetToSeq(d.cols),
+         bline |-> LineOf(tpl, fpos) + LexedHead(opt), bcol |-> ColOf(tpl, fpos), frames |-> d.frames,
+         fline |-> LineOf(tpl, fpos) + LexedHead(opt) + Cat[tpl[fpos]].f.foff,     \* physical line of the planted token
          mline |-> report.line, mcol |-> report.col]
 Emit == /\ phase = "done" /\ PrintT(ToJson(Case)) /\ phase' = "end"
-        /\ UNCHANGED <<tpl, nlk, fpos, k, lineno, cb, report, route>>
+        /\ UNCHANGED <<tpl, nlk, fpos, k, lineno, cb, report, route, opt>>
 Next == \/ \E e \in Good : AddPre(e)
         \/ \E e \in Faulty : Plant(e)
         \/ \E e \in Tails : AddTail(e)
@@ -178,8 +192,14 @@ ReportAtFault == phase \in {"done", "end"} =>
 \* the declared line (the exception's own fields are route-independent by construction of Declared)
 RichShowsFault == phase \in {"done", "end"} =>
                     RichShows.who = "faulty" /\ RichShows.line = Declared(tpl, fpos).line
+\* consistency of what the exception carries: its source, split on line terminators and indexed by the reported
+\* line, is the line holding the fault (the marker stands CarriedHead + LineOf + offset lines into the carried text)
+SourceConsistent == phase \in {"done", "end"} =>
+                    LET f == Cat[tpl[fpos]].f
+                        marker == CarriedHead(opt) + LineOf(tpl, fpos) + (IF f.cls = "py" \/ (f.cls = "rt" /\ f.exact) THEN f.foff ELSE f.noff)
+                    IN Declared(tpl, fpos).line = marker
 \* the cursor agrees with the closed form at every step
 CursorIsPrefixSum == phase = "lex" =>
-                    /\ lineno = 1 + SumNL(tpl, k - 1)
+                    /\ lineno = 1 + LexedHead(opt) + SumNL(tpl, k - 1)
                     /\ cb = ColAfter(tpl, k - 1)
 =============================================================================
